@@ -63,7 +63,12 @@ RULE = ("cases = (window 1-8, tries 1-5, timeout 2-6 ticks, sequence mask 0xffff
         "= at least one datagram lost or delayed past a timeout and at least one retransmission happened; distinct = "
         "distinct canonical JSON of the case; plus read/write cases = (SCPConnection.read or write of 0 .. 9 buffers + 1 bytes, "
         "buffer 4-256, window 1-8, tries 1-5, same outcome scripts plus request-executed-reply-lost) against a simulated "
-        "memory, non-trivial = more than one chunk and a loss/delay")
+        "memory, non-trivial = more than one chunk and a loss/delay; plus wrap cases = one transfer of more commands than the "
+        "(shrunk) sequence space, window 2-8, with 1-3 (often neighbouring) commands whose replies arrive late but before "
+        "their timeout, so that several sequence numbers in a row are still in use when the counter comes round; the "
+        "connection is configured by keywords, positionally in the documented order, or built by MachineController / "
+        "BMPController from their own n_tries/timeout arguments; in a fifth of the cases the caller's command iterator "
+        "takes 0 .. 2 timeouts of clock time to produce a command")
 
 OK, SUM, BUSY = 0x80, 0x82, 0x8d
 FATAL = [0x81, 0x83, 0x84, 0x85, 0x86, 0x87, 0x88, 0x89, 0x8a, 0x8b, 0x8c, 0x8e, 0x8f, 0x90, 0x00]
@@ -126,6 +131,14 @@ def gen_case(rng, big=False):
     # payloads: commands carry 0..256 bytes of data (errors raised by the burst describe the failing packet)
     for b in case["bursts"]:
         b["data"] = [rng.choice([0, 0, 4, 31, 32, 33, 64, 256]) for _ in b["extra"]]
+    # how the connection got its configuration: built directly (keywords / positionally, in the documented
+    # order) or by one of rig's controllers, which build their connections themselves
+    if rng.random() < 0.25:
+        case["via"] = rng.choice(["pos", "mc", "bmp"])
+    # the caller's command iterator may take its time: ticks that pass while command i is being produced
+    if rng.random() < 0.2:
+        for b in case["bursts"]:
+            b["gen_delay"] = [rng.choice([0, 0, 1, timeout - 1, timeout, 2 * timeout]) for _ in b["extra"]]
     return case
 
 
@@ -137,6 +150,35 @@ def wrap_case():
             "bursts": [{"extra": [0] * n}],
             "script": {"0": [[1, "ok"], [["after_send", 65536], "ok"]], "65536": [[3, "ok"]]},
             "jitter": 0, "wrap": True}
+
+
+def make_connection(case):
+    """the connection under test, configured with case["n_tries"] / case["timeout"] in one of the ways a
+    program does it (inside simnet.installed)"""
+    from rig.machine_control import scp_connection as sc
+    via = case.get("via", "kw")
+    n_tries, timeout = case["n_tries"], float(case["timeout"])
+    if via == "pos":
+        return sc.SCPConnection("sim", 17893, n_tries, timeout)         # the documented parameter order
+    if via == "mc":
+        from rig.machine_control import MachineController
+        return MachineController("sim", n_tries=n_tries, timeout=timeout).connections[None]
+    if via == "bmp":
+        from rig.machine_control import BMPController
+        return list(BMPController("sim", n_tries=n_tries, timeout=timeout).connections.values())[0]
+    return sc.SCPConnection("sim", n_tries=n_tries, timeout=timeout)
+
+
+def slow_iter(net, calls, delays):
+    """the caller's iterator of commands; producing command i takes delays[i] ticks of the clock"""
+    if not delays:
+        return iter(calls)
+
+    def gen():
+        for c, d in zip(calls, delays):
+            net.now += int(d)
+            yield c
+    return gen()
 
 
 def run_impl(case):
@@ -200,7 +242,7 @@ def run_impl(case):
     records = []
     truncated = []
     with simnet.installed(net):
-        conn = sc.SCPConnection("sim", n_tries=case["n_tries"], timeout=float(case["timeout"]))
+        conn = make_connection(case)
         if case["mask"] != 0xffff:
             conn.seq = sc.seqs(mask=case["mask"])
         for bi, b in enumerate(case["bursts"]):
@@ -224,7 +266,7 @@ def run_impl(case):
             try:
                 from harness import common as _common
                 with _common.cpu_limit(300 if len(calls) > 5000 else 30):
-                    conn.send_scp_burst(bufsize, case["window"], iter(calls))
+                    conn.send_scp_burst(bufsize, case["window"], slow_iter(net, calls, b.get("gen_delay")))
                 result = ["done"]
             except sc.TimeoutError as e:
                 result = ["timeout", e.packet.arg1]
@@ -340,6 +382,9 @@ def eval_cases(ctx, cases):
                      "mask": case["mask"], "n_commands": [len(b["extra"]) for b in case["bursts"]],
                      "script": case["script"], "wrap": case.get("wrap", False)}
         ctx.case(small, lost and retrans)
+        ctx.tag("connection_via_" + case.get("via", "kw"))
+        if any(b.get("gen_delay") for b in case["bursts"]):
+            ctx.tag("slow_command_iterator")
         if lost:
             ctx.tag("case_with_loss")
         if retrans:
@@ -473,6 +518,32 @@ def gen_rw_case(rng):
     return case
 
 
+def gen_rw_wrap_case(rng):
+    """one transfer of MORE commands than the (shrunk) sequence space while a few commands - often neighbours -
+    are still waiting for replies that arrive late but BEFORE their timeout: nothing is retransmitted, so every
+    reply belongs to exactly one command that is still outstanding and the counter must step over ALL the
+    numbers that are still in use when it comes round (no reply can legitimately reach another command)."""
+    mask = rng.choice([7, 15, 15, 31])
+    window = rng.choice([w for w in (2, 3, 4, 8) if w < mask])
+    buf = rng.choice([4, 8, 16, 64])
+    n_cmds = rng.randrange(mask + 2, 4 * (mask + 1) + 2)
+    ln = n_cmds * buf - rng.randrange(buf)
+    timeout = 60
+    script = {str(k): [[0, "ok"]] for k in range(n_cmds)}
+    for _ in range(rng.randrange(1, 4)):
+        k0 = rng.randrange(n_cmds)
+        for k in range(k0, min(n_cmds, k0 + rng.choice([1, 2, 2, 3]))):       # neighbours straggle together
+            if len([v for v in script.values() if v[0][0] > 0]) < window - 1:
+                script[str(k)] = [[rng.randrange(8, 50), "ok"]]
+    op = rng.choice(["read", "write"])
+    case = {"rw": op, "buf": buf, "window": window, "n_tries": rng.choice([1, 2, 3]), "timeout": timeout,
+            "mask": mask, "addr": rng.choice([0x60000000, 0x70000000]) + rng.randrange(64), "len": ln,
+            "mem_seed": rng.randrange(251), "script": script, "jitter": rng.randrange(1 << 30), "wrap_rw": True}
+    if op == "write":
+        case["data"] = [rng.randrange(256) for _ in range(ln)]
+    return case
+
+
 def run_rw_impl(case):
     """the real SCPConnection.read / write against a simulated machine holding memory"""
     import random
@@ -560,6 +631,8 @@ def eval_rw_cases(ctx, cases):
         ctx.traces += 1
         ctx.tag("%s_through_burst_%s" % (case["rw"], (result.get("burst") or ["ok" if "ok" in result else "err"])[0]))
         ctx.tag("rw_through_cases")
+        if case.get("wrap_rw"):
+            ctx.tag("rw_through_wrap_with_stragglers")
         lossy = any(v == [] or any(isinstance(d[0], int) and d[0] >= case["timeout"] for d in v)
                     for v in case["script"].values())
         ctx.case(case, lossy and n_cmds > 1)
@@ -611,6 +684,7 @@ def run(ctx):
     for i in range(0, len(cases), 500):
         eval_cases(ctx, cases[i:i + 500])
     rw = [gen_rw_case(ctx.rng) for _ in range(ctx.scale(300, 6000) * (4 if ctx.extended else 1))]
+    rw += [gen_rw_wrap_case(ctx.rng) for _ in range(ctx.scale(100, 2000) * (4 if ctx.extended else 1))]
     for i in range(0, len(rw), 500):
         eval_rw_cases(ctx, rw[i:i + 500])
 
